@@ -53,3 +53,16 @@ Fixpoint boxes (bounds : list Z) : list (list Z) :=
 Definition insert_at (q : nat) (x : Z) (l : list Z) : list Z := firstn q l ++ x :: skipn q l.
 Definition count_superstables (g : graph) (q : nat) : Z :=
   Z.of_nat (length (filter (fun c => reduced_b g q (insert_at q 0 c)) (boxes (map (valg g) (vtilde g q))))).
+
+(* ---- independence number, complete (multipartite) graphs, the theorem-backed bounds (CFCombinatorics / CFPlatonicSolids) ---- *)
+Definition is_independent (g : graph) (S : list nat) : bool := forallb (fun v => forallb (fun w => mult g v w =? 0) S) S.
+Definition indep_number (g : graph) : nat := fold_right Nat.max 0%nat (map (@length nat) (filter (is_independent g) (sublists (Vg g)))).
+Definition min_degree (g : graph) : Z := match Vg g with [] => 0 | v :: t => fold_right Z.min (valg g v) (map (valg g) t) end.
+Definition is_complete_simple (g : graph) : bool := forallb (fun v => forallb (fun w => if Nat.eqb v w then true else mult g v w =? 1) (Vg g)) (Vg g).
+Definition part_of (parts : list nat) (v : nat) : nat :=
+  (fix go (ps : list nat) (v i : nat) := match ps with [] => i | p :: t => if Nat.ltb v p then i else go t (v - p)%nat (S i) end) parts v 0%nat.
+Definition complete_multipartite (parts : list nat) : graph :=
+  let n := fold_right plus 0%nat parts in tab n (fun v => tab n (fun w => if Nat.eqb (part_of parts v) (part_of parts w) then 0 else 1)).
+(* the formula as implemented (smallest part) and the correct one (largest part) *)
+Definition multipartite_formula_as_implemented (parts : list nat) : Z :=
+  match parts with [] => 0 | [p] => Z.of_nat p - 1 | p :: t => Z.of_nat (fold_right plus 0%nat parts) - Z.of_nat (fold_right Nat.min p t) end.
